@@ -32,35 +32,37 @@ Definition zobs (s : list Z) :=
   let e := ztrace s in
   (map (fun r => (r, derived r)) (zrecords e), strain_values Z e, n_first_run Z e).
 
-(* ---------- several assessment points: point j carries (cs_j / c0) times the load of point 0 ---------- *)
-Fixpoint map2 {A B C} (f : A -> B -> C) (a : list A) (b : list B) : list C :=
-  match a, b with x :: a', y :: b' => f x y :: map2 f a' b' | _, _ => [] end.
-Definition vadd (a b : list Z) := map2 Z.add a b.
-Definition vneg (a : list Z) := map Z.opp a.
-Definition vabs (a : list Z) := map Z.abs a.
-Definition vltb (a b : list Z) := hd 0 a <? hd 0 b.
+(* ---------- several assessment points: point j carries (cs_j / c0) times the load of point 0 ----------
+   values = one integer per point (a list of length [length cs]); every operation is defined index-wise so that
+   the projection to point j commutes with it for ALL arguments (FullThm.multipoint_is_pointwise) *)
+Definition vec (n : nat) (f : nat -> Z) : list Z := map f (seq 0 n).
+Definition at_ (j : nat) (v : list Z) : Z := nth j v 0.
 Section Multi.
 Variable c0 : Z.
 Variable cs : list Z.
-Definition nodeL (L c : Z) := L / c0 * c.
-Definition msig (L : Z) : list Z := map (fun c => isig (nodeL L c)) cs.
-Definition meps (sv : list Z) (L : Z) : list Z := map2 (fun s c => ieps s (nodeL L c)) sv cs.
-Definition mdsig (d : Z) : list Z := map (fun c => idsig (nodeL d c)) cs.
-Definition mdeps (dv : list Z) (d : Z) : list Z := map2 (fun ds c => ideps ds (nodeL d c)) dv cs.
+Let n := length cs.
+Definition nodeL (L : Z) (j : nat) := L / c0 * at_ j cs.
+Definition vadd (a b : list Z) := vec n (fun j => at_ j a + at_ j b).
+Definition vneg (a : list Z) := vec n (fun j => - at_ j a).
+Definition vabs (a : list Z) := vec n (fun j => Z.abs (at_ j a)).
+Definition vltb (a b : list Z) := at_ 0 a <? at_ 0 b.
+Definition msig (L : Z) : list Z := vec n (fun j => isig (nodeL L j)).
+Definition meps (sv : list Z) (L : Z) : list Z := vec n (fun j => ieps (at_ j sv) (nodeL L j)).
+Definition mdsig (d : Z) : list Z := vec n (fun j => idsig (nodeL d j)).
+Definition mdeps (dv : list Z) (d : Z) : list Z := vec n (fun j => ideps (at_ j dv) (nodeL d j)).
 Definition mtrace (s : list Z) := trace (list Z) vadd msig meps mdsig mdeps s.
-Definition mzero := map (fun _ => 0) cs.
+Definition mzero := vec n (fun _ => 0).
 Definition mrecords (evs : list (event (list Z))) := records (list Z) vneg vabs vltb mzero mzero evs.
 (* rows of assessment point j *)
-Definition proj (j : nat) (v : list Z) : Z := nth j v 0.
 Definition proj_rec (j : nat) (r : hrec (list Z)) : hrec Z :=
-  {| r_lmin := nodeL (r_lmin r) (nth j cs 0); r_lmax := nodeL (r_lmax r) (nth j cs 0);
-     r_smin := proj j (r_smin r); r_smax := proj j (r_smax r); r_emin := proj j (r_emin r); r_emax := proj j (r_emax r);
-     r_eminLF := proj j (r_eminLF r); r_emaxLF := proj j (r_emaxLF r);
+  {| r_lmin := nodeL (r_lmin r) j; r_lmax := nodeL (r_lmax r) j;
+     r_smin := at_ j (r_smin r); r_smax := at_ j (r_smax r); r_emin := at_ j (r_emin r); r_emax := at_ j (r_emax r);
+     r_eminLF := at_ j (r_eminLF r); r_emaxLF := at_ j (r_emaxLF r);
      r_closed := r_closed r; r_zero := r_zero r; r_run := r_run r |}.
 Definition mobs (s : list Z) :=
   let e := mtrace s in
-  (map (fun j => map (fun r => let r' := proj_rec j r in (r', derived r')) (mrecords e)) (seq 0 (length cs)),
-   map (hd 0) (strain_values (list Z) e), n_first_run (list Z) e).
+  (map (fun j => map (fun r => let r' := proj_rec j r in (r', derived r')) (mrecords e)) (seq 0 n),
+   map (at_ 0) (strain_values (list Z) e), n_first_run (list Z) e).
 End Multi.
 
 (* ---------- rational values, law given by tables (outputs of a real law, recorded by the harness) ---------- *)
